@@ -2,6 +2,8 @@ package main
 
 import (
 	"fmt"
+	"go/token"
+	"go/types"
 	"sort"
 	"strings"
 
@@ -456,6 +458,39 @@ func (c *Ctx) checkAssetConservation(fn *ssa.Function, key string) {
 	if mc == nil || mp == nil {
 		c.Bad("conservation-assets", key, fn.Pos(), "per-asset sums of inputs and outputs are not both collected")
 		return
+	}
+	// the key of the per-asset sums identifies the asset exactly: a variable-length asset name copied into a fixed-size
+	// array loses its length (names that differ by trailing zero bytes, or beyond the array, fall onto one key)
+	{
+		keyTypes := map[string]bool{}
+		for m := range maps {
+			if mt, ok := m.Type().Underlying().(*types.Map); ok {
+				keyTypes[typeStr(mt.Key())] = true
+			}
+		}
+		lossy := ""
+		var lossyPos token.Pos
+		for _, g := range closureFuncs(fn, 2) {
+			for _, ci := range allCalls(g) {
+				b, isB := ci.Common().Value.(*ssa.Builtin)
+				if !isB || b.Name() != "copy" {
+					continue
+				}
+				dst := ci.Common().Args[0]
+				if sl, ok := dst.(*ssa.Slice); ok {
+					dst = sl.X
+				}
+				fa, ok := dst.(*ssa.FieldAddr)
+				if !ok {
+					continue
+				}
+				if keyTypes[strings.TrimPrefix(typeStr(fa.X.Type()), "*")] {
+					lossy = fieldName(fa.X.Type(), fa.Field)
+					lossyPos = ci.Pos()
+				}
+			}
+		}
+		c.Check(lossy == "", "conservation-assets", key+":exact-asset-key", lossyPos, "the per-asset key holds policy and name exactly", "the per-asset key's "+lossy+" field is a fixed-size array filled by copy from a variable-length name: names that differ only in length (trailing zero bytes) or beyond the array share one key, so per-asset conservation is checked on merged amounts")
 	}
 	c.Check(mc != mp, "conservation-assets", key+":sides", fn.Pos(), "input and output assets are summed separately", "input and output assets are summed into the same map")
 	c.Check(maps[mc].mint && !maps[mp].mint, "conservation-assets", key+":mint", fn.Pos(), "mint/burn quantities are booked with the consumed assets", "mint is not booked on the consumed side (or is booked on the produced side)")
